@@ -1739,8 +1739,11 @@ impl SocketAddress for SocketAddrV6 {
 }
 
 impl SocketAddress for unix::net::SocketAddr {
+    // The address and the length of the part of it that is in use. The length
+    // is part of a Unix address: it's what distinguishes unnamed, pathname and
+    // abstract addresses (and for the latter defines the name).
     #[doc(hidden)] // Not part of stable API.
-    type Storage = libc::sockaddr_un;
+    type Storage = (libc::sockaddr_un, libc::socklen_t);
 
     fn into_storage(self) -> Self::Storage {
         let mut storage = libc::sockaddr_un {
@@ -1758,38 +1761,43 @@ impl SocketAddress for unix::net::SocketAddr {
                 storage.sun_path.len(),
             )
         };
+        // Unnamed address, we'll leave it all zero.
+        let mut length = mem::offset_of!(libc::sockaddr_un, sun_path);
         if let Some(pathname) = self.as_pathname() {
             let bytes = pathname.as_os_str().as_bytes();
             path[..bytes.len()].copy_from_slice(bytes);
+            // Include the terminating null byte (if it fits).
+            length += std::cmp::min(bytes.len() + 1, path.len());
         } else {
             #[cfg(any(target_os = "android", target_os = "linux"))]
             if let Some(bytes) = self.as_abstract_name() {
                 path[1..][..bytes.len()].copy_from_slice(bytes);
+                // All bytes, and only those, are part of the name.
+                length += 1 + bytes.len();
             }
-
-            // Unnamed address, we'll leave it all zero.
         }
-        storage
+        (storage, length as libc::socklen_t)
     }
 
     unsafe fn as_ptr(storage: &Self::Storage) -> (*const c_void, u32) {
-        let ptr = ptr::from_ref(storage).cast();
-        (ptr, size_of::<Self::Storage>() as u32)
+        let ptr = ptr::from_ref(&storage.0).cast();
+        (ptr, storage.1)
     }
 
     unsafe fn as_mut_ptr(storage: &mut MaybeUninit<Self::Storage>) -> (*mut c_void, u32) {
         (
-            storage.as_mut_ptr().cast(),
-            size_of::<Self::Storage>() as u32,
+            unsafe { (&raw mut (*storage.as_mut_ptr()).0).cast() },
+            size_of::<libc::sockaddr_un>() as u32,
         )
     }
 
     unsafe fn init(storage: MaybeUninit<Self::Storage>, length: u32) -> Self {
         debug_assert!(length as usize >= size_of::<libc::sa_family_t>());
-        let family = unsafe { ptr::addr_of!((*storage.as_ptr()).sun_family).read() };
+        let storage = unsafe { &raw const (*storage.as_ptr()).0 };
+        let family = unsafe { ptr::addr_of!((*storage).sun_family).read() };
         debug_assert!(family == libc::AF_UNIX as libc::sa_family_t);
-        let path_ptr = unsafe { ptr::addr_of!((*storage.as_ptr()).sun_path) };
-        let length = length as usize - (path_ptr.addr() - storage.as_ptr().addr());
+        let path_ptr = unsafe { ptr::addr_of!((*storage).sun_path) };
+        let length = length as usize - (path_ptr.addr() - storage.addr());
         // SAFETY: the kernel ensures that at least `length` bytes are
         // initialised.
         let path = unsafe { slice::from_raw_parts::<u8>(path_ptr.cast(), length) };
@@ -1801,6 +1809,12 @@ impl SocketAddress for unix::net::SocketAddr {
             }
         }
 
+        // The kernel includes the terminating null byte of a pathname in the
+        // length.
+        let path = match path {
+            [path @ .., 0] => path,
+            path => path,
+        };
         unix::net::SocketAddr::from_pathname(Path::new(OsStr::from_bytes(path)))
             // Fallback to an unnamed address.
             // SAFETY: unnamed (zero length) address is valid.
